@@ -42,3 +42,8 @@ package keeper
 //@   props C31
 //@   ensures [entropy-known] result1 == nil ==> header.SessionBlockHeight + pcWindow(sessionCtx) * pcBPS(sessionCtx) <= ctxHeight(ctx)
 //@   ensures [in-range] result1 == nil && totalRelays > 0 ==> 0 <= result0 && result0 < totalRelays
+
+//@ func (Keeper).SessionNodeCount
+//@   trusted parameter getter; the range is what Params.Validate enforces (1..25)
+//@   pure_fn
+//@   ensures 1 <= res && res <= 25
